@@ -3,6 +3,7 @@
 # (evidence: theirs; known_findings/MANIFEST/Generated facts: ours; Driver/Main.lean regenerated)
 cd /verif || exit 1
 b=$1
+git add -A; git commit -q -m "work in progress before merging $1" 2>/dev/null
 git merge --no-edit "$b" 2>&1 | grep -E "CONFLICT \(content\): Merge conflict in [^e]|CONFLICT \(add|error:" 
 for f in $(git diff --name-only --diff-filter=U); do
   case $f in
